@@ -424,7 +424,8 @@ pub fn exec(ctx: &mut Ctx, op: &str, p: &mut Toks) -> String {
             let epochs = p.nat() as i32;
             let ns = p.nat();
             let script = p.v1(ns);
-            let job = LearnJob { xs, ts, val, batch, epochs, script };
+            let print = p.opt_trailing_nat();
+            let job = LearnJob { xs, ts, val, batch, epochs, script, print: if print == 0 { None } else { Some(print as i32) } };
             let r = run_learn(&mut net, &job);
             crate::ops::props::net_oracles_learn(ctx, &spec, &net, &job, &r);
             r.map(|(tl, vl, va)| {
@@ -447,6 +448,8 @@ pub struct LearnJob {
     pub batch: usize,
     pub epochs: i32,
     pub script: Vec<f32>,
+    /// `learn`'s progress-printing interval; must not influence anything `learn` returns or leaves behind
+    pub print: Option<i32>,
 }
 
 pub fn run_learn(net: &mut Network, job: &LearnJob) -> Result<(Vec<f32>, Vec<f32>, Vec<f32>), String> {
@@ -459,7 +462,7 @@ pub fn run_learn(net: &mut Network, job: &LearnJob) -> Result<(Vec<f32>, Vec<f32
     neurons::verif::set_val_loss_script(if job.script.is_empty() { None } else { Some(job.script.clone()) });
     let r = try_run(|| {
         let val = job.val.as_ref().map(|(_, _, thr)| (&vx, &vt, *thr));
-        net.learn(&xr, &tr, val, job.batch, job.epochs, None)
+        net.learn(&xr, &tr, val, job.batch, job.epochs, job.print)
     });
     neurons::verif::set_val_loss_script(None);
     r
